@@ -1098,6 +1098,9 @@ int main(int argc, char** argv) {
     int pers = personality(0xffffffff);
     if (pers >= 0 && !(pers & ADDR_NO_RANDOMIZE) && personality(pers | ADDR_NO_RANDOMIZE) >= 0) {
       setenv("C18SIM_NOASLR_DONE", "1", 1);
+      // no per-thread malloc cache: its double-free detection compares against a per-process RANDOM key,
+      // which makes the behaviour of a run that has already corrupted its heap differ between processes
+      setenv("GLIBC_TUNABLES", "glibc.malloc.tcache_count=0", 1);
       execv("/proc/self/exe", argv);
     }
   }
